@@ -1005,30 +1005,44 @@ func vf23GenRequest(rng *rand.Rand, fx *vf23Fixture, isRep bool) vf23Request {
 
 // vf23OnlyHeaderlessMembersDropped recognises the answer the known defect "full GET takes the
 // parent header from data parts only" gives under broken streams: the payload is exact except
-// that (size-split members of) the object of which every data part of the restoring rule is
-// really unavailable - not stored, or its stream breaks before the end - come back empty.
-func vf23OnlyHeaderlessMembersDropped(fx *vf23Fixture, rq vf23Request, restoring int, got []byte) bool {
-	if restoring < 0 {
-		return false
-	}
-	d := int(fx.rules[restoring].DataPartNum)
+// that (size-split members of) the object come back empty where every data part of the rule
+// the member is restored from is really unavailable - not stored, or its stream breaks before
+// the end of the part. The restoring rule of a member is the first one, not before the rule
+// the previous member was restored from, with no more than p parts really unavailable.
+func vf23OnlyHeaderlessMembersDropped(fx *vf23Fixture, rq vf23Request, got []byte) bool {
 	step := fx.Len
 	if fx.Limit > 0 {
 		step = fx.Limit
 	}
-	dropped := 0
+	dropped, fromRule := 0, 0
 	for off := 0; off < fx.Len; off += step {
 		m := fx.payload[off:min(off+step, fx.Len)]
+		unavailable := func(ri, pi int) bool {
+			d := int(fx.rules[ri].DataPartNum)
+			pl := (len(m) + d - 1) / d
+			return slices.Contains(fx.Missing[ri], pi) ||
+				slices.ContainsFunc(rq.Breaks, func(b vf23Break) bool { return b.Rule == ri && b.Part == pi && b.After < pl })
+		}
+		for ; fromRule < len(fx.rules); fromRule++ {
+			n := 0
+			for pi := 0; pi < int(fx.rules[fromRule].DataPartNum)+int(fx.rules[fromRule].ParityPartNum); pi++ {
+				if unavailable(fromRule, pi) {
+					n++
+				}
+			}
+			if n <= int(fx.rules[fromRule].ParityPartNum) {
+				break
+			}
+		}
+		if fromRule == len(fx.rules) {
+			return false // nothing can restore this member: the read had to fail
+		}
 		if bytes.HasPrefix(got, m) {
 			got = got[len(m):]
 			continue
 		}
-		pl := (len(m) + d - 1) / d
-		for pi := 0; pi < d; pi++ {
-			if slices.Contains(fx.Missing[restoring], pi) {
-				continue
-			}
-			if !slices.ContainsFunc(rq.Breaks, func(b vf23Break) bool { return b.Rule == restoring && b.Part == pi && b.After < pl }) {
+		for pi := 0; pi < int(fx.rules[fromRule].DataPartNum); pi++ {
+			if !unavailable(fromRule, pi) {
 				return false // this data part is readable, the member must have been served
 			}
 		}
@@ -1266,8 +1280,8 @@ func vf23Read(r *verifkit.Run, w *vf23World, fx *vf23Fixture, rq vf23Request, ca
 	// parts unavailable, beyond that only "no wrong answer" is demanded
 	faulty := len(rq.Breaks) > 0
 	withinBudget, rule0BeyondRepair := true, false
-	allDataOfRestoringRuleMissing := fx.allDataOfRestoringRuleMissing
-	restoringRule, part0HeaderDefectMet := -1, false
+	allDataOfRestoringRuleMissing := fx.allDataOfRestoringRuleMissing && len(rq.Breaks) == 0 // fault reads: judged on the streams that really break, see key()
+	part0HeaderDefectMet := false
 	if faulty {
 		plan := map[oid.Address]int{}
 		unavail := make([][]int, len(fx.rules))
@@ -1288,7 +1302,6 @@ func vf23Read(r *verifkit.Run, w *vf23World, fx *vf23Fixture, rq vf23Request, ca
 				rule0BeyondRepair = true
 			}
 		}
-		allDataOfRestoringRuleMissing, _, restoringRule = vf23LossFlags(fx.rules, unavail)
 		// range reads: a broken stream still yields the part header. The known "header of a range
 		// read is taken from part #0 only" defect is met when no rule tried before (and including)
 		// a rule within budget has its part #0 stored
@@ -1374,7 +1387,7 @@ func vf23Read(r *verifkit.Run, w *vf23World, fx *vf23Fixture, rq vf23Request, ca
 		case faulty && rq.Mode != "full" && err != nil && errors.Is(err, apistatus.ErrObjectNotFound) && part0HeaderDefectMet && strings.Contains(err.Error(), "first error: resolve parent payload length"):
 			// same defect: the rules that the broken streams leave within budget lack part #0
 			return "ec|part0-missing-in-every-rule|range-read-object-not-found"
-		case faulty && rq.Mode == "full" && err == nil && fx.Len > 0 && allDataOfRestoringRuleMissing && vf23OnlyHeaderlessMembersDropped(fx, rq, restoringRule, out.buf):
+		case faulty && rq.Mode == "full" && err == nil && fx.Len > 0 && vf23OnlyHeaderlessMembersDropped(fx, rq, out.buf):
 			// same defect as the next one, per size-split member
 			return "ec|all-data-parts-of-restoring-rule-missing|full-get-returns-empty-object"
 		case fx.Layout == "v2-nolink" && rq.Mode != "full" && sym == "wrong-bytes|truncated" && len(out.buf) == 0:
